@@ -42,8 +42,8 @@ def _one(c, bank, N, dtype, seed, variant="generic"):
         x = base[1::2]
     elif variant == "negstride":
         x = np.array(x[::-1], copy=True)[::-1]
-    comp = cfg.make_computer(c)
     route = c.get("route")
+    comp = cfg.make_computer(dict(c, spelling=route[8:]) if route and route.startswith("spelled_") else c)
     if route == "deepcopy":
         import copy
         comp = copy.deepcopy(comp)      # a copied computer is still that computer
@@ -60,7 +60,9 @@ def _one(c, bank, N, dtype, seed, variant="generic"):
         if getattr(comp, "_dft_size", D) != D:
             raise core.HarnessError("reference DFT size %d != computer's %d for %r" % (
                 D, comp._dft_size, c))
-        r = computers.call(comp.compute_full, sig.rov(x) if variant in ("strided", "negstride") else sig.ro(x))
+        # route fpstrict: the caller runs with numpy's floating-point error state set to 'raise'
+        with np.errstate(all="raise" if route == "fpstrict" else None):
+            r = computers.call(comp.compute_full, sig.rov(x) if variant in ("strided", "negstride") else sig.ro(x))
     finally:
         config.LOG_FLOOR_VALUE = old_floor
     tags = dict(bank=type(bank).__name__, style=c["style"], dtype=str(dtype))
@@ -125,10 +127,13 @@ def _eval(pt, seed):
                     nontriv += 1
         if dtype == "float64":
             # the computer handed over as a deep copy / through pickle (how DataLoader workers get it)
-            for route in ("deepcopy", "pickle"):
+            for route in ("deepcopy", "pickle", "spelled_int", "spelled_npbool", "fpstrict"):
                 evals += 1
                 v, want = _one(dict(c, route=route), bank, M + S, dtype, seed, "generic")
                 viol.extend(v)
+            evals += 1
+            v, want = _one(dict(c, route="fpstrict"), bank, M + S, dtype, seed, "zeros")
+            viol.extend(v)
         if use_log and dtype == "float64":
             # LOG_FLOOR_VALUE changed after construction (larger and smaller than the default)
             for floor in (1e-2, 1e-9):
